@@ -28,10 +28,12 @@ CLAIMED = {
  'C03': dict(
     text=('Coq theorem step_refines: for every content and every argument value, the model of insert/overwrite/append/prepend/del/set/invert/reverse/rol/ror/<<=/>>=/clear equals a '
           'specification written with firstn/skipn/rev/++ only (same new content or same exception), lifted by induction to every finite program (program_refines), plus the frame theorem '
-          '(bits outside [s,e) and the length are unchanged). The model also covers byteswap, slice/item assignment with ints and bitstrings, set/invert over lists and ranges, replace, *=, &= |= ^=; '
-          'those are tied and oracle-checked but not yet proved against a list spec. Correspondence runs random programs of 1-12 mutators, state compared after every step.'),
-    note='Trusted: Coq kernel; bitarray slice assignment/deletion modelled in Prims (ba_setslice/ba_delslice; exercised by the same cases); hand model tied by per-step differential correspondence; the str reference model (tools/props/refmodel.py) is the oracle.',
-    technique='Coq proof (refinement to list spec, induction over programs) + vm_compute correspondence', design='§5 C03'),
+          '(bits outside [s,e) and the length are unchanged). Further theorems: set(v, iterable) characterised bit by bit (a bit is v exactly when listed before the first invalid position, IndexError exactly then, length kept); '
+          'set(v, range) - the slice fast path equals the per-position loop for every range; invert(iterable) frame; *= n is n copies; byteswap(fmt, start, end, repeat) equals its pattern/group specification for every size list, '
+          'window and repeat flag, returns the number of patterns, leaves the rest of the window, the outside and the length unchanged, and the group operation is proved to be "the same bytes in the opposite order" (an involution). '
+          'Slice/item assignment with ints, replace and &= |= ^= are modelled, tied per step along random programs and oracle-checked. Correspondence runs random programs of 1-12 mutators plus single steps at exact boundaries, state compared after every step.'),
+    note='Not yet proved against the list spec: item/slice assignment with integer values and extended steps, replace (C07), in-place & | ^ (C16 covers the operators). Trusted: Coq kernel; bitarray slice assignment/deletion modelled in Prims (ba_setslice/ba_delslice; exercised by the same cases); hand model tied by per-step differential correspondence; the str reference model (tools/props/refmodel.py) is the oracle.',
+    technique='Coq proof (refinement to list spec, loop invariants, induction over programs) + vm_compute correspondence', design='§5 C03'),
  'C07': dict(
     text=('Coq model of BitStore.find/rfind/findall_msb0 (byte fast path and general path), Bits.find/rfind/findall/__contains__/cut/split/startswith/endswith/count and BitArray._replace. '
           'Proved for all data, patterns, windows, counts and both alignments (msb0): the general path AND the byte fast path (bytes.find over tobytes() of the byte window, overlapping matches included) '
@@ -40,19 +42,21 @@ CLAIMED = {
     note='PARTIAL in two places: split/replace loop invariants (non-overlapping selection) and the lsb0 variants rest on differential correspondence (860 quick / 15000+ thorough cases incl. >8192-bit data, overlapping self-similar patterns) and the brute-force oracle. Trusted: Prims.search_all as the model of bitarray.search/find, Search.bytes_find as bytes.find.',
     technique='Coq proof (msb0 search complete; split/replace partial) + vm_compute correspondence + brute-force oracle', design='§5 C07'),
  'C12': dict(
-    text=('Coq theorems: lsb0 indexing is msb0 indexing of the reversed bits for every index; lsb0 slicing with any start/stop and any positive step is the reversed msb0 slice of the reversed bits '
-          '(the repo\'s own hypothesis test states this law for lengths <= 9; here it is proved for all lengths). Every other positional operation (negative steps, assignment, deletion, set, invert, '
-          'find/rfind/findall incl. the chunked reverse scan on > 8192 bits, startswith/endswith, cut, replace, insert/overwrite/append/prepend, ranged reverse/byteswap, rol/ror, shifts, read and pack order, '
-          'mode-free interpretations, toggling) is modelled with the lsb0 method table and checked against the mirror of the msb0 reference on every run.'),
-    note='PARTIAL proof: mirror theorems proved for index and positive-step slicing; the other operations are tied by correspondence (model with lsb0=true) and decided by the mirror oracle. Seven lsb0 defects found this way were repaired (known_findings.json).',
-    technique='Coq proof (nia over div/mod) + vm_compute correspondence + mirror oracle', design='§5 C12'),
+    text=('Coq theorems, for all contents and arguments: lsb0 indexing is msb0 indexing of the reversed bits; lsb0 slicing with ANY key (any start/stop, positive or negative step; both accessors) is the reversed msb0 slice of the reversed bits '
+          '(the repo\'s own hypothesis test states this for positive steps and lengths <= 9); single-bit assignment, inversion and deletion, unit-step slice assignment (operand mirrored too) and deletion obey the mirror law; '
+          'find, rfind and findall under lsb0 - the chunked scan from the end backwards, for every data size, count and alignment - equal the msb0 search of the mirrored pattern in the mirrored data. '
+          'The remaining positional operations (extended-step assignment/deletion, set/invert over iterables, startswith/endswith, cut, replace, insert/overwrite/append/prepend, ranged reverse/byteswap, rol/ror, read and pack order, '
+          'mode-free interpretations, toggling) are modelled with the lsb0 method table and checked against the mirror of the msb0 reference on every run.'),
+    note='PARTIAL only for the operations listed last (tied by correspondence with lsb0=true and decided by the mirror oracle). Ten lsb0 defects found this way were repaired (known_findings.json).',
+    technique='Coq proof (nia over div/mod, sorted-list extensionality, loop invariants) + vm_compute correspondence + mirror oracle', design='§5 C12'),
  'C06': dict(
     text=('Coq model of the stream classes as a (bits, pos) machine: read/peek with fixed, stretchy, variable-length and integer tokens, readlist/peeklist/unpack with the stretchy-token arithmetic, readto, '
-          'pos/bytepos/bytealign, find/rfind, and every BitStream override that moves pos. Proved: peek/peeklist leave the stream unchanged and return read\'s value; a failing read/readlist restores the state; '
-          'a read keeps 0<=pos<=len (needs: decoders move forward and stay inside the data, Dtype lengths are non-negative - the latter was false on the pinned tree and is now repaired); readlist positions are monotone and bounded. '
+          'pos/bytepos/bytealign, find/rfind, and every BitStream override that moves pos. Proved: peek/peeklist leave the stream unchanged and return read\'s value; a failing read/readlist/positioning/search/mutator restores the state; '
+          '0<=pos<=len is preserved by EVERY operation (reads, list reads, positioning, find/rfind/readto - using the search theorems of C07 -, append, prepend, insert, overwrite incl. s.overwrite(s), item/slice assignment and deletion, replace, clear, *=) '
+          'and hence by every finite history (induction over the operation list). Needs: decoders move forward and stay inside the data (proved), Dtype lengths are non-negative (false on the pinned tree, repaired). '
           'Histories of 3-25 operations are compared step by step with the model and with an independent (bits, pos) reference machine.'),
-    note='PARTIAL proof: the invariant over whole histories including the mutator overrides is carried by correspondence + reference machine for now; the read-side theorems are proved. Trusted: token interpretations are those of C02/C10.',
-    technique='Coq proof (case analysis, induction over token lists) + vm_compute correspondence + reference machine', design='§5 C06'),
+    note='Proved for msb0 mode; under lsb0 the same histories are exercised by correspondence only. Trusted: token interpretations are those of C02/C10; the content side of the mutators is C03.',
+    technique='Coq proof (invariant by case analysis per operation, induction over histories) + vm_compute correspondence + reference machine', design='§5 C06'),
  'C08': dict(
     text=('Coq model of BitStore\'s buffer + modified_length mechanism and of _setfile/_setbytes_with_truncation/_setbitarray/BytesIO windows. Proved: every file route yields a well-formed store whose bits are exactly the selected window; '
           'on well-formed stores len, ==, count, indexing, invert, +, copy depend only on the content (the pinned tree built stores that were not well formed - repaired). '
